@@ -27,7 +27,9 @@ class OutlineBase(plumpy.WorkChain):
         super().define(spec)
         spec.inputs.dynamic = True
         spec.outputs.dynamic = True
-        spec.outline(*to_outline(cls, cls.AST))
+        # (OUTLINE_FROM: the outline may name the functions of a base class explicitly -- ``Base.s0`` -- although this class
+        # overrides them; what the outline names is what runs)
+        spec.outline(*to_outline(getattr(cls, 'OUTLINE_FROM', None) or cls, cls.AST))
 
     trace = ()
 
@@ -68,6 +70,8 @@ class OutlineBase(plumpy.WorkChain):
             idx = sum(1 for t in tr if t.startswith('s'))
             script = self.inputs['rets']
             val = script[idx] if idx < len(script) else None
+            if val == '@TC0':
+                val = plumpy.ToContext()  # a context assignment that happens to be empty (a fan-out over zero items): nothing to wait for, the chain goes on
         tr.append(name)
         rec = getattr(self, '_rec', None)
         if rec is not None and kind == 's':
@@ -162,12 +166,25 @@ class OutlineMustBase(OutlineBase):
 generated.register(OutlineMustBase, 'OutlineMustBase')
 
 
-def outline_class(ast, must=False):
-    key = json.dumps([ast, must]) if must else json.dumps(ast)
+def _override(name):
+    def fn(self):
+        return self._call('s', name + '!override')
+
+    fn.__name__ = name
+    return fn
+
+
+def outline_class(ast, must=False, shadowed=False):
+    key = json.dumps([ast, must, shadowed]) if (must or shadowed) else json.dumps(ast)
     cls = _CACHE.get(key)
     if cls is None:
         name = 'Outline_%d' % len(_CACHE)
-        cls = type(name, (OutlineMustBase if must else OutlineBase,), {'AST': ast})
+        attrs = {'AST': ast}
+        if shadowed:
+            # a subclass that overrides every third step while its outline names the base class's functions
+            attrs['OUTLINE_FROM'] = OutlineBase
+            attrs.update({'s%d' % i: _override('s%d' % i) for i in range(0, NSTEP, 3)})
+        cls = type(name, (OutlineMustBase if must else OutlineBase,), attrs)
         generated.register(cls, name)
         _CACHE[key] = cls
     return cls
@@ -199,7 +216,7 @@ def interpret(ast, preds, rets, max_calls=400):
         v = rets[state['s']] if state['s'] < len(rets) else None
         state['s'] += 1
         trace.append(name)
-        return v
+        return None if v == '@TC0' else v  # (an empty context assignment is a context assignment: no value)
 
     def run(body):
         for n in body:
